@@ -225,6 +225,14 @@ var jsScripts = []struct {
 	{"[parseInt(a), a.length]", 1},
 }
 
+var pairsAndTwins = [][]string{
+	{"var q7 = a.length; q7", "(function() { try { q7; return 'declared' } catch (e) { return 'undeclared' } })()"},
+	{"function escape(x) { return 'mine' } escape(a)", "escape('é')"},
+	{"var Number = a.length; Number", "Number('7') + 1"},
+	{"a + ' ' + a", "a + '  ' + a", "twins"},
+	{"'<' + a + ' >'", "'<' + a + '  >'", "twins"},
+}
+
 // leaf generates a declaration that yields a scalar, evaluated at a node whose field xpaths are fs.
 func (g *declGen) leaf(fs []string, intField string) D {
 	pick := func() string { return fs[g.t.Intn("decl.field", len(fs))] }
@@ -359,12 +367,14 @@ func (g *declGen) leaf(fs []string, intField string) D {
 		// two scripts evaluated one after the other: the first declares a global (a variable, a
 		// function or variable named like a built-in), the second finds out whether it is there
 		g.usesJS = true
-		pairs := [][2]string{
-			{"var q7 = a.length; q7", "(function() { try { q7; return 'declared' } catch (e) { return 'undeclared' } })()"},
-			{"function escape(x) { return 'mine' } escape(a)", "escape('é')"},
-			{"var Number = a.length; Number", "Number('7') + 1"},
-		}
+		pairs := pairsAndTwins
 		pr := pairs[g.t.Intn("decl.jspair", len(pairs))]
+		if len(pr) == 3 {
+			// two scripts that differ only by white space inside a string literal: two programs
+			f := pick()
+			return cf("concat", cf("javascript", D{"const": pr[0]}, D{"const": "a"}, D{"xpath": f}), D{"const": "|"},
+				cf("javascript", D{"const": pr[1]}, D{"const": "a"}, D{"xpath": f}))
+		}
 		return cf("concat", cf("javascript", D{"const": pr[0]}, D{"const": "a"}, D{"xpath": pick()}), D{"const": "|"},
 			cf("javascript", D{"const": pr[1]}), D{"const": "|"}, cf("javascript", D{"const": pr[1]}))
 	case 11:
